@@ -59,8 +59,6 @@ def ptres(v):
         return ("ok", pquads(v[1]))
     if v == "TUnsupported":
         return ("unsupported",)
-    if v == "TPanic":
-        return ("panic",)
     raise ValueError(v)
 
 
@@ -140,11 +138,6 @@ def ttl_obj_text(o):
     return '"' + render_escape(o) + '"'
 
 
-def annot_quad(q):
-    t = ttl_obj_text(q[2])
-    return q[3] is None and "{|" in t and "|}" in t
-
-
 def plain_inner_literal(v):
     """inner literal of a quoted triple that survives being written bare: single-spaced words without
     whitespace characters, quotes, angle brackets or backslashes"""
@@ -207,7 +200,7 @@ def gen_plain_literal(rng):
     """a literal outside the double-decoding class and kind-stable (for quads that are expected to survive)"""
     for _ in range(50):
         v = gen_literal(rng)
-        if kind_guess_stable(v) and not dd_term(v) and not ("{|" in v and "|}" in v):
+        if kind_guess_stable(v) and not dd_term(v):
             return v
     return "v"
 
@@ -314,8 +307,7 @@ def eval_rt(ctx, binpath, cases, stream, report=True):
         qt_ok = all(qt_safe(x) for x in case_terms(c) if isinstance(x, dict))
         wf = wf_case(c)
         if not qt:
-            py_class = [int(wf), int(any(dd_quad(q) for q in orig)), int(any(dd_ttl_narrow(q) for q in orig)),
-                        int(any(annot_quad(q) for q in orig))]
+            py_class = [int(wf), int(any(dd_quad(q) for q in orig)), int(any(dd_ttl_narrow(q) for q in orig))]
             if py_class != list(m_class):
                 ctx.broken("correspondence", stream + ":classifier",
                            "Python and Coq classifiers disagree: py=%s coq=%s" % (py_class, list(m_class)), c)
@@ -347,9 +339,6 @@ def eval_rt(ctx, binpath, cases, stream, report=True):
             extra = [q for q in ib[1] if q not in expected] if ib[0] == "ok" else []
             if qt and not qt_ok:
                 v[key] = "known:C14-quoted-triple-bare-components"
-                continue
-            if key == "ttl" and any(annot_quad(q) for q in orig):
-                v[key] = "known:C14-turtle-annotation-capture"
                 continue
             known = dd_ttl_quad if key == "ttl" else dd_quad
             if ib[0] == "ok" and all(known(q) for q in missing) and (not extra or missing):
@@ -401,10 +390,10 @@ def eval_fn(ctx, binpath, cases, stream):
             ctx.broken("correspondence", stream, "driver died", c)
             continue
         if "panic" in im:
-            i = ["\x00"] if f == "clean_ttl" else ["<panic>"]
+            i = ["<panic>"]
         else:
             o = im["out"]
-            if f in ("escape", "clean_nt", "ets", "resolve"):
+            if f in ("escape", "clean_nt", "ets", "resolve", "clean_ttl"):
                 i = [o]
             elif f == "decode":
                 i = ["\x00"] if o is None else ["\x01", o[0], o[1]]
@@ -414,8 +403,6 @@ def eval_fn(ctx, binpath, cases, stream):
                 i = list(o)
             elif f in ("nq_line", "nt_line"):
                 i = ["\x00"] if o is None else ["\x01"] + [x for x in o if x is not None]
-            elif f == "clean_ttl":
-                i = ["\x01", o]
         if i != m:
             nmis += 1
             ctx.broken("correspondence", stream, {"what": "function %s: implementation and model differ" % f,
@@ -488,6 +475,56 @@ def gen_fn_cases(rng, n):
     return cases
 
 
+def gen_ttl_doc(rng):
+    lines = []
+    for _ in range(rng.choice([1, 1, 2, 3])):
+        s = rng.choice(["<" + gen_iri(rng) + ">", "<" + gen_bnode(rng) + ">", "<< <http://a/s> <http://a/p> \"x y\" >>"])
+        stmt = s
+        for i in range(rng.choice([1, 1, 2])):
+            stmt += (" ; " if i else " ") + "<" + gen_iri(rng) + ">"
+            for j in range(rng.choice([1, 1, 2])):
+                o = rng.choice([render_term_nq(rng, gen_literal(rng), True), "<" + gen_iri(rng) + ">", render_term_nq(rng, gen_plain_literal(rng), True),
+                                "<< <http://a/s> <http://a/p> <http://a/o> >>"])
+                if rng.random() < 0.35:
+                    o += rng.choice([" {| <http://a/q> \"z\" |}", " {| <http://a/q> <http://a/z> |}", " {| <http://a/q> |}", " {| |}", " {|", " |} {| a b",
+                                     " {| <http://a/q> \"u v\" |}", "{|<http://a/q> \"w\"|}"])
+                stmt += (" ," if j else "") + " " + o
+        stmt += rng.choice([" .", " .", ".", "", " . # c"])
+        if rng.random() < 0.15 and stmt:
+            k = rng.randrange(len(stmt))
+            stmt = stmt[:k] + rng.choice(ALPHA) + stmt[k + rng.choice([0, 1]):]
+        if stmt.lstrip().startswith("@prefix") or stmt.lstrip().startswith("PREFIX"):
+            stmt = "<http://a/s> <http://a/p> \"x\" ."
+        lines.append(stmt.replace("\n", " "))
+    return "\n".join(lines) + rng.choice(["\n", "", "\r\n"])
+
+
+def eval_load(ctx, binpath, cases, stream):
+    fmt = {"nq": 0, "nt": 1, "ttl": 2}
+    impl = ctx.run_impl(binpath, cases)
+    exprs = ["run_load %d %s" % (fmt[c["fmt"]], cstr(c["text"])) for c in cases]
+    model = ctx.run_model("Codec14", REQ, exprs, preamble=PRE)
+    nmis = nun = 0
+    for c, im, mo in zip(cases, impl, model):
+        ctx.count()
+        if isinstance(mo, tuple) and mo and mo[0] == "ERROR":
+            ctx.broken("correspondence", stream, "model evaluation failed: %s" % (mo[1],), c)
+            continue
+        m = ptres(mo)
+        if m[0] == "unsupported":
+            nun += 1
+            continue
+        i = ("ok", iquads(im["quads"])) if im and "quads" in im else ("panic", im)
+        if i != m:
+            nmis += 1
+            ctx.broken("correspondence", stream, {"what": "loading a %s document: implementation and model differ" % c["fmt"],
+                                                   "text": c["text"], "impl": i, "model": m}, c)
+        if m[1]:
+            ctx.nontrivial(("load", c["fmt"], c["text"]))
+    ctx.stream(stream, cases=len(cases), impl_model_mismatches=nmis, model_unsupported=nun)
+    ctx.log("stream %s: cases=%d mismatches=%d unsupported=%d" % (stream, len(cases), nmis, nun))
+
+
 # ---- corpus / known findings ----------------------------------------------------------------------------------
 def load_corpus():
     d = os.path.join(vf.VERIF, "corpus", "C14")
@@ -557,6 +594,13 @@ def run(ctx):
     ctx.sample(fnc[3])
     eval_fn(ctx, binpath, fnc, "function_level")
 
+    # 5. hand-built Turtle documents (annotation blocks, language tags, datatypes, malformed statements)
+    docs = [{"op": "load", "fmt": "ttl", "text": gen_ttl_doc(rng)} for _ in range(max(12, n // 2))]
+    docs += [{"op": "load", "fmt": rng.choice(["nq", "nt"]), "text": "\n".join(gen_line(rng) + rng.choice([" .", " .", "."]) for _ in range(3)) + "\n"}
+             for _ in range(max(6, n // 6))]
+    ctx.sample(docs[0])
+    eval_load(ctx, binpath, docs, "load_documents")
+
     ctx.finish(
         level="proof", rule=PROP_RULE,
         trusted_base=[
@@ -575,9 +619,7 @@ def run(ctx):
         extra={"partial": [
             "quoted-triple terms are outside wf_db: no round-trip theorem covers them; they are modelled (ets_fuel, split_qt, "
             "depth tracking of both tokenizers) and checked by correspondence and by the Spec oracle on qt_safe datasets only",
-            "C14_turtle is stated for a database with an empty prefix map",
-            "known_ttl_annot has no _refuted theorem (the model answers TUnsupported on annotation blocks); the class is "
-            "established on the implementation by the corpus witnesses"]})
+            "C14_turtle is stated for a database with an empty prefix map"]})
 
 
 def replay(ctx):
@@ -585,6 +627,8 @@ def replay(ctx):
     c = ctx.replay["case"]
     if c.get("op") == "fn":
         eval_fn(ctx, binpath, [c], "replay")
+    elif c.get("op") == "load":
+        eval_load(ctx, binpath, [c], "replay")
     else:
         eval_rt(ctx, binpath, [c], "replay")
     ctx.finish(level="proof", rule=PROP_RULE)
